@@ -168,6 +168,34 @@ theorem attached_is_latest_unexpired (evs : List Event) (flt : Bool) (host : Byt
       exact dictGet_of_mem_nodup (hwf.2 k d hkd) hm
     · simp at hm
 
+/-! ### the expiry clause read with RFC 6265's acceptance rule (finding F-C54g) -/
+
+/-- Full-strength RFC reading: an expired Set-Cookie from ANY host that RFC-domain-matches its domain empties the slot.
+    The code does not satisfy this (it accepts a Set-Cookie only when `stickycookie.domain_match` does, which treats a
+    Domain without leading dot as exact-host); see `_partial` and `_counterexample`. -/
+def ExpiredRemovedRFC (isIP : Bytes → Bool) : Prop :=
+  ∀ (jar : Jar) (host : Bytes) (port : Nat) (c : Cookie), c.expired = true →
+    domainMatch6265 isIP host (ckey c host port).domain = true →
+    jarGet (setCookie jar host port c) (ckey c host port) c.name = none
+
+/-- what holds: the same under the guard that the code's own domain check accepts the response -/
+theorem expired_removed_rfc_partial (jar : Jar) (host : Bytes) (port : Nat) (c : Cookie) (hexp : c.expired = true)
+    (hguard : implDomainMatch host (ckey c host port).domain = true) :
+    jarGet (setCookie jar host port c) (ckey c host port) c.name = none := by
+  rw [jarGet_setCookie]
+  simp [writeCookie, hguard, hexp]
+
+private def cx (x : String) : Bytes := x.toUTF8.toList
+
+/-- witness: `sid` stored for `Domain=example.com` by example.com; sub.example.com (which RFC-domain-matches) expires it -/
+theorem expired_removed_rfc_counterexample : ¬ ExpiredRemovedRFC stdIP := by
+  intro h
+  have := h [(⟨cx "example.com", 80, [slash]⟩, [(cx "sid", cx "1")])] (cx "sub.example.com") 80
+    { name := cx "sid", value := [], attrs := [(cx "Domain", some (cx "example.com"))], expired := true }
+    rfl (by decide +kernel)
+  revert this
+  decide +kernel
+
 /-! ### with the clock and the attribute parsing inside the model -/
 
 /-- `attached_only_if_spec_match` for histories of raw Set-Cookies processed at arbitrary clock readings: the
